@@ -16,7 +16,7 @@ WATCHDOG = {"quick": 1200, "thorough": 3000}
 COLS = ["loads_min", "loads_max", "S_min", "S_max", "epsilon_min", "epsilon_max", "S_a", "S_m", "epsilon_a", "epsilon_m",
         "R", "epsilon_min_LF", "epsilon_max_LF"]
 FLAGS = ["is_closed_hysteresis", "is_zero_mean_stress_and_strain", "run_index"]
-REQUIRED_CLASSES = {t: ["law:neuber_binned", "law:seegerbeste_binned", "law:neuber_exact", "memory1", "memory2", "memory3",
+REQUIRED_CLASSES = {t: ["law:neuber_binned", "law:seegerbeste_binned", "memory1", "memory2", "memory3",
                         "depth>=4", "multi:2..6_points", "multi:dyadic", "multi:general_ratio", "negation"]
                     for t in ("quick", "thorough")}
 REQUIRED_MONITORS = ["stream==reversals_of_repeated_sequence", "rows:count", "rows:flags", "rows:values", "strain_values",
@@ -27,7 +27,9 @@ RULE = ("seeded load sequences (integer alphabets with ties, floats, guideline e
         "itself fed to its HCM core (observed by a hook) and evaluating the same law object; plus multi-point batches "
         "(2..6 proportional points) against single-point runs and negated loads. Non-trivial: at least one hysteresis "
         "recorded; distinct = distinct (sequence, law configuration).")
-ASSUMPTIONS = ["pv/ref/hcm_sim.py is the trusted statement of the guideline procedure (Memory 1-3, Masing branches)",
+ASSUMPTIONS = ["the detector is driven with Binned laws (10..200 bins) as pyLife's own pipeline does; its interface needs pandas objects back "
+               "(`.values`), which the exact law classes do not return - they are C06's subject",
+               "pv/ref/hcm_sim.py is the trusted statement of the guideline procedure (Memory 1-3, Masing branches)",
                "the simulator evaluates the same law object through scalar calls: errors of the law itself are C06/C07's subject",
                "a closed loop end that ties with the largest |load| without lying on the primary path makes primary and "
                "secondary continuation coincide only up to solver tolerance: such cases are tagged tie_with_max and judged "
@@ -72,9 +74,7 @@ def generate(ctx):
             continue
         r = rng.random()
         kind = "neuber" if rng.random() < 0.5 else "seegerbeste"
-        binned = r < 0.85
-        if not binned:
-            kind = "neuber"
+        binned = True     # the detector reads `.values` of what the law returns: only Binned (pandas in, pandas out) fits that interface
         yield {"seq": [float(v) for v in s], "law": kind, "binned": bool(binned),
                "bins": int(rng.choice([10, 37, 100, 200])), "mat": int(rng.integers(0, len(MATERIALS))),
                "kp": float(rng.choice([1.5, 2.0, 3.5])), "rseed": int(rng.integers(0, 2**31))}
